@@ -107,7 +107,11 @@ func parseDirFuncs(dir string) map[string][]*ast.FuncDecl {
 		if !strings.HasSuffix(n, ".go") || strings.HasSuffix(n, "_test.go") {
 			continue
 		}
-		f, err := parser.ParseFile(core.Fset, filepath.Join(core.RepoDir, dir, n), nil, parser.SkipObjectResolution)
+		src, rerr := core.ReadFile(filepath.Join(core.RepoDir, dir, n))
+		if rerr != nil {
+			continue
+		}
+		f, err := parser.ParseFile(core.Fset, filepath.Join(core.RepoDir, dir, n), src, parser.SkipObjectResolution)
 		if err != nil {
 			continue
 		}
